@@ -1,4 +1,5 @@
-import SFV.Lemmas.Registry
+import SFV.Lemmas.RegistryInv
+import SFV.Lemmas.RegistryWitness
 /-! # C21 — the data-location registry answers consistently with its history
 
 `_RemotePathMapper` / `DefaultDataManager` (`streamflow/data/manager.py`), modelled as written in
@@ -11,8 +12,6 @@ open SFV.Registry
 def pa : Path := ["/", "a"]
 def paf : Path := ["/", "a", "f"]
 def pbg : Path := ["/", "b", "g"]
-def pe : Path := ["/", "e"]
-def pef : Path := ["/", "e", "f"]
 
 /-! ### defect 1: stale `valid_paths` -/
 
@@ -77,27 +76,6 @@ theorem invalidate_misses_subtree :
   decide +kernel
 
 /-! ### defect 2: `invalidate_location` does not terminate -/
-
-/-- register L:/e/f, register L:/e (not stored anywhere: `/e` is believed valid through the implicit parent entry),
-relate the two -/
-def s21 : St :=
-  let s1 := register St.init 0 pef
-  let s2 := register s1.1 0 pe
-  relate s2.1 s1.2 s2.2
-
-/-- the state after the first pass over the node `/e` -/
-def s21m : St := markLoop pe 0 (s21.locs pe 0) s21
-
-theorem s21m_facts :
-    ¬ (pe ≠ [] ∧ pe ∉ s21.nodes) ∧ ¬ (pe ≠ [] ∧ pe ∉ s21m.nodes) ∧
-    children s21 pe = [pef] ∧ children s21m pe = [pef] ∧
-    s21m.locs pef 0 = [0, 3] ∧ objValid s21m 0 = false ∧ objValid s21m 3 = true ∧
-    objLoc s21m 3 = 0 ∧ objPath s21m 3 = pe := by
-  decide +kernel
-
-/-- a second pass over the node changes nothing: the state is a fixed point of the marking loop -/
-theorem s21m_fix : markLoop pe 0 (s21m.locs pe 0) s21m = s21m := by
-  rfl
 
 /-- **`invalidate_location(L, "/e")` is still running after any number of steps**: object 3 (the second registration
 of `/e`) is stored only in the child node `/e/f`, is never marked invalid, and sends the recursion back to `/e`. -/
@@ -204,6 +182,58 @@ theorem reregister_available_partial (s : St) (l : Nat) (p : Path) (hp : p ≠ [
   · simp only [objValid]
     rw [hk2 s.heap.length (by simp)]
     simp
+
+/-- **`registry_refines_spec_partial`**: for every history of registrations and invalidations (no relations) the
+`valid_paths` cache is exact — a path is believed valid at a node iff the cache-free registry (`specValid`: some valid
+object with that path is stored there) says so — every stored object sits in the node of its own path under its own
+location, and therefore `put`'s `valid_paths` test is the cache-free test. The full statement (with relations) is false:
+`relate_after_invalidate_ignored`. -/
+theorem registry_refines_spec_partial (ops : List ROp) :
+    (∀ np l p, p ∈ (runR ops).vpaths np l ↔ specValid (runR ops) np l p = true) ∧
+    (∀ np l o, o ∈ (runR ops).locs np l → objPath (runR ops) o = np ∧ objLoc (runR ops) o = l) := by
+  have h := rinv_runR ops
+  refine ⟨?_, fun np l o ho => ⟨(h.own np l o ho).2.1, (h.own np l o ho).2.2⟩⟩
+  intro np l p
+  rw [h.cache np l p]
+  simp only [specValid, List.any_eq_true, Bool.and_eq_true, beq_iff_eq]
+  constructor
+  · rintro ⟨rfl, o, ho, hv⟩; exact ⟨o, ho, hv, (h.own _ l o ho).2.1⟩
+  · rintro ⟨o, ho, hv, hp⟩; exact ⟨((h.own np l o ho).2.1.symm.trans hp).symm, o, ho, hv⟩
+
+/-- consequence for such histories: **re-registration always makes the path available again**, and so does registering
+below an invalidated directory -/
+theorem reregister_available_norel (ops : List ROp) (l : Nat) (p : Path) (hp : p ≠ []) :
+    getLocs (register (runR ops) l p).1 p l ≠ [] := by
+  have hc := (registry_refines_spec_partial ops).1 p l p
+  by_cases hv : p ∈ (runR ops).vpaths p l
+  · -- already believed valid: by exactness a valid object is stored there, and `register` keeps it
+    have hspec := hc.mp hv
+    simp only [specValid, List.any_eq_true, Bool.and_eq_true, beq_iff_eq] at hspec
+    obtain ⟨o, ho, hval, _⟩ := hspec
+    obtain ⟨init, hpre, hlen⟩ := prefixes_snoc p hp
+    have hrev : (prefixes p).reverse = p :: init.reverse := by rw [hpre]; simp
+    have hl : objLoc ⟨(runR ops).heap ++ [⟨l, p, true⟩], (runR ops).nodes, (runR ops).locs, (runR ops).vpaths⟩
+        (runR ops).heap.length = l := by simp [objLoc]
+    have hpth : objPath ⟨(runR ops).heap ++ [⟨l, p, true⟩], (runR ops).nodes ++ prefixes p, (runR ops).locs, (runR ops).vpaths⟩
+        (runR ops).heap.length = p := by simp [objPath]
+    have hstop : (register (runR ops) l p).1 =
+        ⟨(runR ops).heap ++ [⟨l, p, true⟩], (runR ops).nodes ++ prefixes p, (runR ops).locs, (runR ops).vpaths⟩ := by
+      simp only [register, put, hrev, if_true, hl, putLoop, hpth]
+      rw [if_pos hv]
+    rw [hstop]
+    intro hnil
+    have hlt : o < (runR ops).heap.length := by
+      have hinv : RInv (runR ops) := rinv_runR ops
+      exact (hinv.own p l o ho).1
+    have : o ∈ getLocs ⟨(runR ops).heap ++ [⟨l, p, true⟩], (runR ops).nodes ++ prefixes p, (runR ops).locs, (runR ops).vpaths⟩ p l := by
+      simp only [getLocs, List.mem_filter]
+      refine ⟨ho, ?_⟩
+      simp only [objValid] at hval ⊢
+      simp [List.getElem?_append_left hlt, hval]
+    rw [hnil] at this; cases this
+  · intro hnil
+    have := reregister_available_partial (runR ops) l p hp hv
+    rw [hnil] at this; cases this
 
 /-- non-vacuity of the witnesses: the states are the ones the comments describe -/
 example : s21.heap.length = 4 ∧ s21.locs pe 0 = [1, 0] ∧ s21.locs pef 0 = [0, 3] := by decide +kernel
